@@ -103,6 +103,16 @@ func spec_assert(c bool) {
 }
 func spec_assume(c bool) {}
 
+// spec_written(w): everything written so far to the writer w (ghost content of io.Writer / bytes.Buffer / strings.Builder).
+func spec_written(w any) string { panic("ghost: writer content") }
+
+// spec_scanSrc(s) / spec_scanPos(s): ghost state of a *text/scanner.Scanner: the runes it delivers and its cursor.
+func spec_scanSrc(s any) []rune { panic("ghost: scanner source") }
+func spec_scanPos(s any) int    { panic("ghost: scanner cursor") }
+
+// spec_yielded(it): the sequence of values the iterator it yields when run to completion (ghost).
+func spec_yielded[T any](it func(yield func(T) bool)) []T { panic("ghost: yielded sequence") }
+
 // bounded (executable) quantifiers for spec functions: lo <= i < hi
 func spec_existsIn(lo, hi int, p func(int) bool) bool {
 	for i := lo; i < hi; i++ {
